@@ -18,8 +18,9 @@ type c16Case struct {
 	Limit     int64  `json:"limit"` // configured ReadLimit (0 = default 8 MiB)
 	Sizes     []int  `json:"sizes"` // frame sizes in bytes (JSON text + newline); a negative size is a refused frame of that many bytes
 	ReadChunk int    `json:"readChunk,omitempty"`
-	Coalesce  bool   `json:"coalesce"`      // all frames are in the pipe before the first Receive
-	Via       string `json:"via,omitempty"` // hook | listener (loopback TCP listener with the configured limit)
+	Coalesce  bool   `json:"coalesce"`        // all frames are in the pipe before the first Receive
+	Via       string `json:"via,omitempty"`   // hook | listener (loopback TCP listener with the configured limit)
+	Trace     bool   `json:"trace,omitempty"` // the transport is configured with a TraceWriter (another reader chain)
 }
 
 type c16Step struct {
@@ -93,6 +94,9 @@ func runC16(c *c16Case) ([]c16Step, string) {
 	var counter func() int64
 	var closeAll func()
 	cfg := &lime.TCPConfig{ReadLimit: c.Limit}
+	if c.Trace {
+		cfg.TraceWriter = NewCountingTrace()
+	}
 	if c.Via == "listener" {
 		l := lime.NewTCPTransportListener(cfg)
 		addr := &net.TCPAddr{IP: net.IPv4(127, 0, 0, 1), Port: 0}
@@ -219,6 +223,9 @@ func sizeClass(size int, L int64) string {
 func judgeC16(c *c16Case, steps []c16Step, note string, o *Outcome) {
 	L := effLimit(c.Limit)
 	o.Class(fmt.Sprintf("limit=%d", c.Limit))
+	if c.Trace {
+		o.Class("traced")
+	}
 	if c.Via != "" {
 		o.Class("via=" + c.Via)
 	}
@@ -314,6 +321,20 @@ func TestC16Sweep(t *testing.T) {
 			}
 		}
 	}
+	// the same boundaries on a traced transport (the trace writer changes the reader chain)
+	for _, L := range limits {
+		bs := boundarySizes(L)
+		for _, coalesce := range []bool{true, false} {
+			for _, a := range bs {
+				run(&c16Case{Limit: L, Sizes: []int{a}, Coalesce: coalesce, Trace: true})
+				run(&c16Case{Limit: L, Sizes: []int{60, int(L), a}, ReadChunk: 7, Coalesce: coalesce, Trace: true})
+				run(&c16Case{Limit: L, Sizes: []int{-int(L) / 2, -int(L) / 2, -int(L) / 2, 60, a}, Coalesce: coalesce, Trace: true})
+			}
+		}
+	}
+	for _, a := range boundarySizes(4096) {
+		run(&c16Case{Limit: 4096, Sizes: []int{60, a}, Via: "listener", Trace: true})
+	}
 	// limit propagation through the real listener (loopback)
 	for _, L := range []int64{256, 4096} {
 		for _, a := range boundarySizes(L) {
@@ -335,7 +356,7 @@ func TestC16(t *testing.T) {
 	rapid.Check(t, func(rt *rapid.T) {
 		L := rapid.SampledFrom([]int64{256, 1000, 4096, 65536}).Draw(rt, "limit")
 		n := rapid.IntRange(1, 12).Draw(rt, "frames")
-		c := &c16Case{Limit: L, Coalesce: rapid.Bool().Draw(rt, "coalesce")}
+		c := &c16Case{Limit: L, Coalesce: rapid.Bool().Draw(rt, "coalesce"), Trace: rapid.IntRange(0, 3).Draw(rt, "trace") == 0}
 		if rapid.Bool().Draw(rt, "chunked") {
 			c.ReadChunk = rapid.OneOf(rapid.IntRange(1, 64), rapid.IntRange(1, int(2*L))).Draw(rt, "chunk")
 		}
